@@ -111,6 +111,14 @@ class _InlineFunction(XPathFunction):
             getattr(self.body, 'source', '')
         )
 
+    def check_arguments_number(self, nargs: int) -> None:
+        # The arity of an inline function item is the number of its parameters (or of
+        # the placeholders of a partial application): it is checked for calls and for
+        # partial applications.
+        if nargs != self.arity:
+            msg = f"the function item has arity {self.arity}, called with {nargs} arguments"
+            raise self.error('XPTY0004', msg)
+
     def __call__(self, *args: ta.FunctionArgType,
                  context: Optional[XPathContext] = None) -> Any:
 
@@ -133,9 +141,6 @@ class _InlineFunction(XPathFunction):
 
         sequence_type: str
         self.check_arguments_number(len(args))
-        if len(args) != self.arity:
-            msg = f"the function item has arity {self.arity}, called with {len(args)} arguments"
-            raise self.error('XPTY0004', msg)
 
         context = copy(context)
         if context is not None:
